@@ -37,7 +37,14 @@ func main() {
 	tier := flag.String("tier", "quick", "quick | thorough (read by harnesses through zzverif.Thorough)")
 	smt := flag.Bool("smt", false, "trace SMT of worker 0")
 	allow := flag.String("allow-init", "", "extra packages whose init is executed")
+	exclude := flag.String("exclude", "", "comma-separated harness files (relative to harness-dir) left out of the overlay")
 	flag.Parse()
+	excluded := map[string]bool{}
+	for _, e := range strings.Split(*exclude, ",") {
+		if e != "" {
+			excluded[e] = true
+		}
+	}
 
 	overlay := map[string][]byte{}
 	filepath.Walk(*hdir, func(p string, info os.FileInfo, err error) error {
@@ -45,6 +52,9 @@ func main() {
 			return nil
 		}
 		rel, _ := filepath.Rel(*hdir, p)
+		if excluded[rel] {
+			return nil
+		}
 		bz, err := os.ReadFile(p)
 		if err != nil {
 			panic(err)
